@@ -39,7 +39,13 @@ func (l linearInterpolator) interpolate(frac float64) Point {
 	if idx-1 >= 0 {
 		partial -= l.cumulative[idx-1]
 	}
-	partial /= p0.XY.distanceTo(p1.XY)
+	if segLength := p0.XY.distanceTo(p1.XY); segLength > 0 {
+		partial /= segLength
+	} else {
+		// Consecutive control points may coincide, in which case every
+		// position on the (zero length) segment is the same point.
+		partial = 0
+	}
 
 	return interpolateCoords(p0, p1, partial).AsPoint()
 }
